@@ -214,10 +214,17 @@ def shard(shard_i, nshards, payload):
                 kind = "invalid-char"
             # an edit history before the request: stale texts must not show through
             n_edits = rng.randint(0, 3)
+            reopened = (i // nshards) % 3 == 1
+            if reopened:
+                # the editor closed the document and opens it again: its version numbers start over (lower than the
+                # ones the server saw before)
+                s.notify("textDocument/didClose", {"textDocument": {"uri": uri}})
+                version = 0
+                res.count("history:reopened-versions-restart")
             for e in range(n_edits):
                 version += 1
                 other, _ = make_doc(rng, bad01)
-                if e == 0 and rng.random() < 0.5:
+                if e == 0 and (reopened or rng.random() < 0.5):
                     s.open(uri, other, version)
                 else:
                     s.change(uri, [other], version)
